@@ -1,5 +1,5 @@
 SPECIFICATION TSpec
-CONSTANTS Threads = {1,2,3,4,5,6,7,8}
+CONSTANTS Threads = {1,2,3,4,5,6,7,8,9,10,11,12,13,14,15,16}
           Objs = {1,2,3}
           StrictTry = TRUE
 CONSTRAINT HighWater
